@@ -77,6 +77,33 @@ func VerifArm(k, torn int64) {
 	atomic.StoreInt64(&verifArmAt, atomic.LoadInt64(&verifCount)+k)
 }
 
+// fail arm: the first rename or remove whose mutation number is >= verifFailAt is not
+// executed and returns an injected I/O error (once); 0 = not armed
+var verifFailAt int64
+
+// VerifArmFail makes the first rename/remove at or after the k-th matching mutation counted
+// from now (k >= 1) fail with EIO without being executed. k <= 0 disarms.
+func VerifArmFail(k int64) {
+	if k <= 0 {
+		atomic.StoreInt64(&verifFailAt, 0)
+		return
+	}
+	atomic.StoreInt64(&verifFailAt, atomic.LoadInt64(&verifCount)+k)
+}
+
+// verifInjectedFailure reports (once) whether mutation number n of a rename/remove is the
+// one to fail.
+func verifInjectedFailure(kind, path string, n int64) error {
+	at := atomic.LoadInt64(&verifFailAt)
+	if at == 0 || n < at || !atomic.CompareAndSwapInt64(&verifFailAt, at, 0) {
+		return nil
+	}
+	if verifDieLog != "" {
+		_ = os.WriteFile(verifDieLog, []byte(fmt.Sprintf("%d %s %s 0 failed=EIO\n", n, kind, path)), 0o644)
+	}
+	return &os.PathError{Op: kind, Path: path, Err: syscall.EIO}
+}
+
 // pattern arm: die before the n-th mutation of one kind whose path contains a substring
 var (
 	verifPatMu   sync.Mutex
@@ -123,10 +150,16 @@ func verifMatches(path string) bool {
 // verifMutation is called before the mutation is executed. It returns the number of
 // bytes of a write that should be written before dying (only meaningful when die).
 func verifMutation(kind, path string, size int) (die bool, torn int64) {
+	die, torn, _ = verifMutationN(kind, path, size)
+	return die, torn
+}
+
+// verifMutationN is verifMutation that also returns the mutation's number (0: not counted).
+func verifMutationN(kind, path string, size int) (die bool, torn int64, n int64) {
 	if !verifMatches(path) {
-		return false, 0
+		return false, 0, 0
 	}
-	n := atomic.AddInt64(&verifCount, 1)
+	n = atomic.AddInt64(&verifCount, 1)
 	if verifTraceF != nil {
 		verifTraceMu.Lock()
 		fmt.Fprintf(verifTraceF, "%d %s %s %d\n", n, kind, path, size)
@@ -152,11 +185,11 @@ func verifMutation(kind, path string, size int) (die bool, torn int64) {
 			_ = os.WriteFile(verifDieLog, []byte(fmt.Sprintf("%d %s %s %d torn=%d\n", n, kind, path, size, t)), 0o644)
 		}
 		if t > 0 {
-			return true, t
+			return true, t, n
 		}
 		verifDie()
 	}
-	return false, 0
+	return false, 0, n
 }
 
 func verifDie() {
@@ -205,12 +238,20 @@ func (v *verifVFS) CreateV2(name string, opt ...FSOption) (File, error) {
 }
 
 func (v *verifVFS) Remove(name string, opt ...FSOption) error {
-	verifMutation("remove", name, 0)
+	if _, _, n := verifMutationN("remove", name, 0); n > 0 {
+		if err := verifInjectedFailure("remove", name, n); err != nil {
+			return err
+		}
+	}
 	return v.VFS.Remove(name, opt...)
 }
 
 func (v *verifVFS) RemoveLocal(name string, opt ...FSOption) error {
-	verifMutation("remove", name, 0)
+	if _, _, n := verifMutationN("remove", name, 0); n > 0 {
+		if err := verifInjectedFailure("remove", name, n); err != nil {
+			return err
+		}
+	}
 	return v.VFS.RemoveLocal(name, opt...)
 }
 
@@ -238,7 +279,11 @@ func (v *verifVFS) MkdirAll(path string, perm os.FileMode, opt ...FSOption) erro
 }
 
 func (v *verifVFS) RenameFile(oldPath, newPath string, opt ...FSOption) error {
-	verifMutation("rename", oldPath+"->"+newPath, 0)
+	if _, _, n := verifMutationN("rename", oldPath+"->"+newPath, 0); n > 0 {
+		if err := verifInjectedFailure("rename", oldPath+"->"+newPath, n); err != nil {
+			return err
+		}
+	}
 	return v.VFS.RenameFile(oldPath, newPath, opt...)
 }
 
